@@ -28,6 +28,7 @@ META = dict(
     technique="structured-path rule, literal-precedence-list rule, exhaustive decision table of the mark-update code",
 )
 META["text"] += ' (R6, N) read_cvrs_directory hands each of its options to the parameter of read_cvrs with the same name and concatenates the records of every export file in sorted order.'
+META["text"] += " R4 refutes grouping a candidate's marks with itertools.groupby over unsorted marks."
 
 SPEC_MARK = '''
 def spec(present, old, rank):
